@@ -163,7 +163,7 @@ func TestVerifC42Src(t *testing.T) {
 	out := vOpenOut()
 	defer out.Close()
 	n := vN()
-	counts := []int{0, 1, 1, 2, 2, 3, 3, 5, 9, 10, 11, 12, 13, 13, 25, 101, 130}
+	counts := []int{0, 1, 1, 2, 2, 3, 3, 5, 9, 10, 11, 12, 13, 13, 25}
 	extras := []string{"", "a=b", "user=$G1", "$MTX_PATH", "$MTX_QUERY", "$$", "x=$G12&y=$G1", "\xc3\xa9=1", "%24G1", "token=abc&v=$G2$G1", "G1", "2"}
 	_ = extras
 
@@ -200,6 +200,9 @@ func TestVerifC42Src(t *testing.T) {
 	}
 	for i := len(vC42Witnesses); i < n; i++ {
 		ng := vPick(r, counts)
+		if r.Chance(1, 40) {
+			ng = vPick(r, []int{99, 100, 101, 130})
+		}
 		hostile := r.Chance(1, 10)
 		ms := make([]string, ng+1)
 		for j := range ms {
@@ -224,7 +227,7 @@ type vC42W struct {
 func vC42Seq(n int) []string {
 	out := []string{"whole"}
 	for i := 1; i <= n; i++ {
-		out = append(out, "g"+strconv.Itoa(i))
+		out = append(out, "k"+strconv.Itoa(i)+".")
 	}
 	return out
 }
